@@ -45,8 +45,7 @@ func (ex *Exec) eval(st *State, e ast.Expr, k func(*State, Val)) {
 		clo := &Closure{Lit: e, Pkg: ex.pkg}
 		ex.escaped[e] = true
 		if ord, ok := ex.cloOrd[e]; ok && ex.fc != nil {
-			if ls := ex.fc.Closures[ord]; ls != nil && len(ls.Ensures) > 0 && !ex.cloVerified[e] {
-				ex.cloVerified[e] = true
+			if ls := ex.fc.Closures[ord]; ls != nil && len(ls.Ensures) > 0 && ex.closureContextIsNew(st, e) {
 				ex.cloHit[ord] = true
 				ex.verifyClosure(st.clone(), clo, ord, ls)
 			}
@@ -103,7 +102,13 @@ func (ex *Exec) eval(st *State, e ast.Expr, k func(*State, Val)) {
 				case *types.Map:
 					i = ex.convert(st3, i, u.Key())
 					in := app("select", app("m-dom", x.T), i.T)
-					k(st3, Val{T: ite(in, app("select", app("m-val", x.T), i.T), zeroOf(x.S.Elem)), S: x.S.Elem, GoT: u.Elem()})
+					mv := Val{T: ite(in, app("select", app("m-val", x.T), i.T), zeroOf(x.S.Elem)), S: x.S.Elem, GoT: u.Elem()}
+					if x.S.Elem.K == KSlice || x.S.Elem.K == KMap {
+						// a slice or map stored in a map is a well-formed value (len >= 0, nil => empty)
+						mv = ex.share(st3, mv)
+						st3.assume(ex.wf(mv))
+					}
+					k(st3, mv)
 				case *types.Slice, *types.Array:
 					ev := Val{T: app("select", app("s-arr", x.T), i.T), S: x.S.Elem, GoT: elemGoType(xt)}
 					ex.assumeWf(st3, ev)
